@@ -233,11 +233,11 @@ func (d *Decoder) unmarshal(val reflect.Value, tagType byte) error {
 				switch ve.Kind() {
 				case reflect.Int8:
 					for i := 0; i < length; i++ {
-						val.Index(i).Set(reflect.ValueOf(int8(ba[i])))
+						val.Index(i).SetInt(int64(int8(ba[i])))
 					}
 				case reflect.Uint8:
 					for i := 0; i < length; i++ {
-						val.Index(i).Set(reflect.ValueOf(ba[i]))
+						val.Index(i).SetUint(uint64(ba[i]))
 					}
 				}
 			default:
